@@ -336,6 +336,9 @@ let spec_line (f : string list) : string =
     (match v2_spec x with Some h -> v2_hdr h | None -> "REJ") ^ " possible=" ^ b01 (v2_possible x)
   | ["v1b"; x] | ["v1s"; x] | ["v1fh"; x] -> (match spec_v1 (mbytes x) with Some h -> v1_hdr h | None -> "REJ")
   | ["v1fa"; x] -> (match spec_v1 (mbytes x) with Some h -> "OK " ^ v1_addr h.addr | None -> "REJ")
+  | ["fmt1"; a] ->
+    (* the grammar's reading of the line the formatter model produces for this value *)
+    (match spec_v1 (fmt1 (addr1 (split_on ',' a))) with Some h -> "WF " ^ v1_addr h.addr | None -> "NOTWF")
   | ["std"; "u16"; x] -> (match spec_port (mbytes x) with Some n -> "OK " ^ nstr n | None -> "ERR")
   | ["std"; "ip4"; x] -> (match spec_ip4 (mbytes x) with Some o -> "OK " ^ hexs o | None -> "ERR")
   | ["std"; "ip6"; x] -> (match spec_ip6 (mbytes x) with Some o -> "OK " ^ hexs o | None -> "ERR")
